@@ -23,6 +23,7 @@ pub const WAIT_WAKER: u32 = 208; // harness-level await: a = logical waker; r = 
 pub const H_PHASE: u32 = 209; // controller advanced the phase; a = new phase
 pub const H_TICK: u32 = 210; // clock advanced; a = new now
 pub const H_POINT: u32 = 211; // plain scheduling point inside harness code
+pub const H_BARRIER: u32 = 212; // the process waits until the phase counter reaches a
 
 pub const TICK: u64 = 1000; // virtual nanoseconds per tick
 
@@ -77,6 +78,7 @@ pub struct Strat {
     pub freeze: Option<(usize, u64)>, // (thread, k): stop thread at its k-th scheduling point
     pub script: Vec<u32>,             // recorded decisions to follow (replay)
     pub max_steps: u64,
+    pub tick_phase: u32, // forced clock ticks for spinning timed waiters only from this phase on
 }
 
 impl Default for Strat {
@@ -92,6 +94,7 @@ impl Default for Strat {
             freeze: None,
             script: vec![],
             max_steps: 200_000,
+            tick_phase: 0,
         }
     }
 }
@@ -243,6 +246,7 @@ impl Sched {
         match p.kind {
             kv::PARK => self.token[i] || self.can_spur(),
             WAIT_WAKER => self.woken[p.a as usize] || self.can_spur(),
+            H_BARRIER => self.phase as u64 >= p.a,
             kv::AB_CAS => {
                 let cur = *self.atom.get(&p.addr).unwrap_or(&0);
                 let expect = p.a >> 8;
@@ -344,7 +348,7 @@ impl Sched {
             }
             kv::NOW => {
                 let q = self.strat.q_tick;
-                let force = self.spin[i] > 40;
+                let force = self.spin[i] > 40 && self.phase >= self.strat.tick_phase;
                 let rnd = (self.rndf() < q) as u32;
                 let tick = if force { 1 } else { self.decide_val(2, rnd, |v| v < 2) };
                 if tick == 1 {
